@@ -26,6 +26,7 @@ var Registry = map[string]func(tier string) int{
 	"C16": C16,
 	"C17": C17,
 	"C18": C18,
+	"C19": C19,
 	"C20": C20,
 }
 
